@@ -193,8 +193,9 @@ fn unguard_contract<const N: usize>() {
     kani::cover!(N < 2 || had == 2, "COVER same object guarded twice");
     guard.clear();
     assert!(guard.is_empty() && guard.len() == 0, "OBL gc_handles/Guard::clear/ensures#no_roots_left");
-    drop(obj);
-    drop(guard);
+    // Guard::drop / Gc::drop on a dead heap have their own harnesses above; leaking here keeps their glue out
+    core::mem::forget(obj);
+    core::mem::forget(guard);
 }
 
 macro_rules! unguard_harness {
